@@ -22,7 +22,11 @@ class Barrier(object):
         return None
 
 
-def _noop_update(*args, **kwargs):
+def _noop_update(simulation):
+    """update_func of the barrier SQLMutations: the SQL changes nothing.
+    (SQLMutation.simulate() only accepts functions with this exact
+    signature - a (*args, **kwargs) function is reported as not
+    simulatable, which silently removed every barrier from the pools.)"""
     return None
 
 
